@@ -79,6 +79,16 @@ def step (skipsFirst : Bool) (s : State) : Op → State
 
 def run (skipsFirst : Bool) (ops : List Op) : State := ops.foldl (step skipsFirst) {}
 
+/-- `Issues.SanitizeMapAndCollect` / `SanitizeListAndCollect` on result `r`: the objects whose messages the
+    helper reads, each with "the caller still owned it at the moment of the read" (it was not in the pool,
+    where a concurrent call may take and rewrite it). `readFirst` is the regenerated order of the helper's
+    two steps: read (Sanitize…) then free (Collect…), or the reverse. -/
+def sanitizeAndCollect (skipsFirst readFirst : Bool) (s : State) (r : Nat) : State × List (Nat × Bool) :=
+  let ids := (s.live[r]?).getD []
+  let s' := step skipsFirst s (.collect r)
+  let atRead := if readFirst then s else s'
+  (s', ids.map fun id => (id, !atRead.pool.contains id))
+
 /-- every issue object is owned exactly once: by the pool or by one live result -/
 def Owned (s : State) : Prop := (s.pool ++ s.live.flatten).Nodup ∧ ∀ id ∈ s.pool ++ s.live.flatten, id < s.next
 
